@@ -4,6 +4,7 @@ mod dlog;
 mod chainrec;
 mod keys;
 mod layout;
+mod limits;
 mod util;
 
 fn main() {
@@ -17,6 +18,9 @@ fn main() {
         "chain-record" => chainrec::cmd_record(args[2].parse().unwrap(), &args[3]),
         "chain-unique" => chain::cmd_unique(args[2].parse().unwrap(), &args[3]),
         "auth-debug" => auth::cmd_debug(&args[2]),
+        "auth-outcomes" => auth::cmd_outcomes(&args[2], &args[3], args[4].parse().unwrap()),
+        "limits-replay" => limits::cmd_replay(&args[2], &args[3]),
+        "limits-time" => limits::cmd_time(&args[2]),
         "auth-replay" => auth::cmd_replay(&args[2], &args[3]),
         "dlog-replay" => dlog::cmd_replay(&args[2], &args[3]),
         "chain-honest" => chain::cmd_honest(&args[2], &args[3]),
